@@ -21,6 +21,9 @@ Explains(e) ==
   /\ \/ e.op = "to_rfc3339" /\ WriteOk(e, "AutoSi", FALSE)
      \/ e.op = "to_rfc3339_opts" /\ e.sf \in SecondsFormats /\ e.z \in BOOLEAN /\ WriteOk(e, e.sf, e.z)
      \/ e.op = "parse3339" /\ (IF Accepts(e.s) THEN e.r = [ok |-> ToUtc(Value(e.s))] ELSE Has(e.r, "err"))
+     \* fractions too long to scan here (tens of thousands of digits): time-secfrac = "." 1*DIGIT has no upper length and digits beyond the
+     \* ninth do not change the value, so the outcome equals the outcome for the text cut after the ninth digit, which is judged in full
+     \/ e.op = "parse3339_longfrac" /\ e.surplus > 0 /\ Accepts(e.s9) /\ e.r9 = [ok |-> ToUtc(Value(e.s9))] /\ e.r = e.r9
 Init == l = 1
 Next == /\ l <= Len(Rec) /\ Report(l, Explains(Ev)) /\ l' = l + 1
 Spec == Init /\ [][Next]_l
